@@ -43,6 +43,9 @@ class Contract(object):
         self.feas_ms = kw.pop('feas_ms', None)          # feasibility-check budget per fork (unknown = feasible)
         self.defines = list(kw.pop('defines', []))     # definitional links to ghost symbols: assumed by callers, not checkable
         self.consts = kw.pop('consts', {})              # parameter -> concrete Python value (specialised variant)
+        # field name -> narrower type than the class declaration, valid inside this function: every read is an OBLIGATION
+        # (narrow[field]@line) proved from the precondition and the frames, then assumed
+        self.field_types = {k: Ty.parse_type(v) for k, v in kw.pop('field_types', {}).items()}
         self.variants = kw.pop('variants', {})          # (param, value) -> qual of the specialised contract
         if kw:
             raise TypeError('unknown contract keys %s for %s' % (sorted(kw), qual))
